@@ -4,6 +4,7 @@ CONSTANTS
   EnvKeys = {"A", "C"}
   Ends <- MC_Ends
   Methods = {"loky"}
+  Launches = {"script", "module"}
 INVARIANT NoLeak
 INVARIANT SentinelIffGone
 INVARIANT ExitFaithful
